@@ -1098,7 +1098,12 @@ def sampler_digest(sampler):
         elif active is state.get("_flow_proposal"):
             d["active_proposal"] = "flow"
         elif active is state.get("_uninformed_proposal"):
-            d["active_proposal"] = "uninformed"
+            # At an iteration boundary with iteration >= maximum_uninformed
+            # the running sampler switches to the flow proposal in its next
+            # check_state(), before any draw; a restored sampler selects the
+            # flow proposal directly.  Both are the same observable state.
+            d["active_proposal"] = "uninformed" if (
+                sampler.iteration < sampler.maximum_uninformed) else "flow"
         else:
             d["active_proposal"] = "other"
     for k in sorted(state):
